@@ -98,7 +98,7 @@ def body(ck, tier, runner):
     sd = SemDiff(ck, runner, "opt_on_off")
     ndb = 200 if tier == "quick" else 2500
     for d in range(ndb):
-        big = d % 20 == 19
+        big = d % (40 if tier == "quick" else 20) == 19        # 300-1500 row tables: the Lean reference evaluator needs seconds per query on them
         db = qgen.gen_db(rng, ntables=3, max_rows=rng.pick([6, 20, 40]), big=big)
         g = qgen.Gen(rng, db, FEATS)
         queries, keys = [], []
